@@ -380,3 +380,31 @@ pub fn batch_fold_attack(max_n: usize) -> bool {
     println!("batch-fold-attack: {tried} batches of size 1..={max_n} tried against the real batch_verify; violation found = {reproduced}");
     reproduced
 }
+
+
+/// Oracle concretisation for the Poseidon-transcript G1 reader (C03): the solver's counterexample is "a
+/// buffer shorter than 48 bytes was accepted". Concrete witness: a subgroup point whose compressed
+/// encoding ends in 0x00 (searched among small multiples of the generator), fed with that last byte removed
+/// to the REAL `<G1Projective as Hashable<PoseidonState<Fq>>>::read`; true = the real reader accepts it.
+pub fn poseidon_g1_reader_accepts_truncated() -> bool {
+    use group::{Curve, Group, GroupEncoding};
+    use midnight_curves::{G1Affine, G1Projective};
+    use midnight_proofs::transcript::Hashable;
+    type PState = midnight_circuits::hash::poseidon::PoseidonState<midnight_curves::Fq>;
+    let g = G1Projective::generator();
+    let mut p = g;
+    for i in 1u32..20000 {
+        let a: G1Affine = p.to_affine();
+        let bytes = <G1Affine as GroupEncoding>::to_bytes(&a);
+        let b: &[u8] = bytes.as_ref();
+        if b[47] == 0 {
+            let mut rd: &[u8] = &b[..47];
+            let accepted = <G1Projective as Hashable<PState>>::read(&mut rd).is_ok();
+            println!("witness [{i}]G: encoding ends in 0x00; real Poseidon-transcript reader on the 47-byte prefix accepted={accepted}");
+            return accepted;
+        }
+        p += g;
+    }
+    println!("no witness found");
+    false
+}
